@@ -3,6 +3,7 @@
 /repo's history after fix commits were amended: commits are matched by a distinctive subject fragment."""
 import json, subprocess, re
 FRAG = {
+ "F49": "a block whose id does not follow the id of its previous block",
  "F48": "staking transactions obey the genesis period",
  "F45": "walks over block ids in the routing thread are bounded",
  "F46": "a block whose header carries id 0 is invalid",
